@@ -216,9 +216,12 @@ def r11_4(ctx: Ctx, rep: Report, helpers: Dict[str, Optional[Func]]) -> None:
                 continue
             region = cfg.reachable(pres[0], labels_avoid=("exc",)) - cfg.reachable(abse[0], labels_avoid=("exc",))
             reads: Dict[str, Set[str]] = {"self": set(), other: set()}
+            from .common import deep_resolve, single_env
+
+            senv = single_env(h.node)  # `bottom_o = self.srcaddr` ... `bottom_o.type`
             for n in region:
                 if n.kind == "cond":
-                    for ch in chains_in(n.ast):
+                    for ch in chains_in(deep_resolve(n.ast, senv) or n.ast):
                         if ch[0] in reads and len(ch) >= 3 and norm_field(h.cls, ch[1]) == fld:
                             reads[ch[0]].add(ch[2].rstrip("()"))
             want = "ipnet" if token == "nc_wildcard" else "type"
